@@ -8,7 +8,7 @@ from ..progprop import ProgramProperty, results, is_exc, init_step, Getter, have
 
 class C03(ProgramProperty):
     id = "C03"
-    theorems = []
+    theorems = ["C03_member", "C03_std", "C03_std_canonical", "C03_expand_compressible", "C03_ce", "C03_ec", "C03_bijection"]
     lean_modules = ["CuriesVerif.Properties.C03"]
     rule = ("one case = one strict converter whose CURIE prefixes do not contain the delimiter, from the overlap "
             "lattice generator (lossless clauses) or, in half of the cases, from the prefix-free generator "
